@@ -2,11 +2,12 @@
 
 Exit status 0: all Gen files are current.  Exit status 3: some source construct is not in the
 supported subset (fail-closed) -- the caller treats this as a broken proof obligation.
-Usage: gen.py [--repo /repo] [--out /verif/coq/Gen] [--only IndexGen.v | JoinGen.v | FilterPairGen.v | WrapperGen.v]
+Usage: gen.py [--repo /repo] [--out /verif/coq/Gen] [--only IndexGen.v | JoinGen.v | FilterPairGen.v | WrapperGen.v | MatcherGen.v | FilterWrapperGen.v | ProfilerGen.v]
 (--only IndexGen.v writes just that file and gen_status_index.json; without it IndexGen.v is
 generated together with the other targets and reported in gen_status.json.
  --only FilterPairGen.v writes just Gen/FilterPairGen.v and gen_status_pair.json;
- --only WrapperGen.v writes just Gen/WrapperGen.v and gen_status_wrapper.json)
+ --only WrapperGen.v writes just Gen/WrapperGen.v and gen_status_wrapper.json;
+ --only MatcherGen.v / FilterWrapperGen.v / ProfilerGen.v likewise write one file and gen_status_<x>.json)
 """
 import argparse
 import hashlib
@@ -382,6 +383,49 @@ def gen_wrapper_file(repo, out):
         return {'error': '%s: %s' % (type(e).__name__, e)}
 
 
+def gen_filter_wrapper(repo):
+    """FilterWrapperGen.v: (text, info) -- the filters' filter_tables methods and overlap_join_py."""
+    import filter_wrappers
+    cores = {}
+    gen_join(repo, cores)
+    srcs = {}
+    text, info = filter_wrappers.gen_filter_wrappers(repo, cores, srcs)
+    rels = sorted(srcs)
+    sha = hashlib.sha256('\0'.join(srcs[r] for r in rels).encode()).hexdigest()
+    notes = []
+    for k, v in info.items():
+        notes += ['     %s: %s' % (k, n) for n in v['rewrites']]
+    hdr = filter_wrappers.HEADER % (', '.join(rels), sha,
+                                    '\n'.join(notes).replace('*)', '* )').replace('(*', '( *'))
+    return hdr + text, {'sources': rels, 'sha256': sha, 'functions': info}
+
+
+def gen_filter_wrapper_file(repo, out):
+    """Gen/FilterWrapperGen.v; returns its status entry.  On failure a file that cannot compile is left."""
+    try:
+        text, info = gen_filter_wrapper(repo)
+        changed = write_if_changed(os.path.join(out, 'FilterWrapperGen.v'), text)
+        return dict(info, changed=changed)
+    except (py2coq.Unsupported, SyntaxError, OSError) as e:
+        write_if_changed(os.path.join(out, 'FilterWrapperGen.v'),
+                         '(* translation failed: %s *)\nTranslation_failed.\n' % str(e).replace('*)', '* )'))
+        return {'error': '%s: %s' % (type(e).__name__, e)}
+
+
+def gen_profiler_file(repo, out):
+    """Gen/ProfilerGen.v (profiler.py); returns its status entry.  On failure a file that cannot compile
+    is left behind, so that no stale model survives."""
+    import profiler
+    try:
+        text, info = profiler.gen_profiler(repo)
+        changed = write_if_changed(os.path.join(out, 'ProfilerGen.v'), text)
+        return dict(info, changed=changed)
+    except (py2coq.Unsupported, SyntaxError, OSError) as e:
+        write_if_changed(os.path.join(out, 'ProfilerGen.v'),
+                         '(* translation failed: %s *)\nTranslation_failed.\n' % str(e).replace('*)', '* )'))
+        return {'error': '%s: %s' % (type(e).__name__, e)}
+
+
 def comp_op_map(repo):
     """COMP_OP_MAP as a Gallina function from operator string to a py_* comparison."""
     import ast
@@ -426,6 +470,20 @@ def gen_pair_file(repo, out):
         return {'error': '%s: %s' % (type(e).__name__, e)}
 
 
+def gen_matcher_file(repo, out):
+    """Gen/MatcherGen.v (matchers.py); returns its status entry.  On failure a file that cannot
+    compile is left behind, so that no stale model survives."""
+    import matchers
+    try:
+        text, info = matchers.gen_matchers(repo)
+        changed = write_if_changed(os.path.join(out, 'MatcherGen.v'), text)
+        return dict(info, changed=changed)
+    except (py2coq.Unsupported, SyntaxError, OSError) as e:
+        write_if_changed(os.path.join(out, 'MatcherGen.v'),
+                         '(* translation failed: %s *)\nTranslation_failed.\n' % str(e).replace('*)', '* )'))
+        return {'error': '%s: %s' % (type(e).__name__, e)}
+
+
 def write_if_changed(path, text):
     if os.path.exists(path) and open(path).read() == text:
         return False
@@ -452,6 +510,27 @@ def main():
         print(json.dumps({k: ('error: ' + v['error']) if 'error' in v else
                           ('changed' if v.get('changed') else 'unchanged') for k, v in st.items()}))
         sys.exit(0 if 'error' not in st['WrapperGen.v'] else 3)
+    if args.only == 'MatcherGen.v':
+        st = {'MatcherGen.v': gen_matcher_file(args.repo, args.out)}
+        with open(os.path.join(args.out, 'gen_status_matcher.json'), 'w') as f:
+            json.dump(st, f, indent=1, sort_keys=True)
+        print(json.dumps({k: ('error: ' + v['error']) if 'error' in v else
+                          ('changed' if v.get('changed') else 'unchanged') for k, v in st.items()}))
+        sys.exit(0 if 'error' not in st['MatcherGen.v'] else 3)
+    if args.only == 'FilterWrapperGen.v':
+        st = {'FilterWrapperGen.v': gen_filter_wrapper_file(args.repo, args.out)}
+        with open(os.path.join(args.out, 'gen_status_filterwrapper.json'), 'w') as f:
+            json.dump(st, f, indent=1, sort_keys=True)
+        print(json.dumps({k: ('error: ' + v['error']) if 'error' in v else
+                          ('changed' if v.get('changed') else 'unchanged') for k, v in st.items()}))
+        sys.exit(0 if 'error' not in st['FilterWrapperGen.v'] else 3)
+    if args.only == 'ProfilerGen.v':
+        st = {'ProfilerGen.v': gen_profiler_file(args.repo, args.out)}
+        with open(os.path.join(args.out, 'gen_status_profiler.json'), 'w') as f:
+            json.dump(st, f, indent=1, sort_keys=True)
+        print(json.dumps({k: ('error: ' + v['error']) if 'error' in v else
+                          ('changed' if v.get('changed') else 'unchanged') for k, v in st.items()}))
+        sys.exit(0 if 'error' not in st['ProfilerGen.v'] else 3)
     if args.only == 'FilterPairGen.v':
         st = {'FilterPairGen.v': gen_pair_file(args.repo, args.out)}
         with open(os.path.join(args.out, 'gen_status_pair.json'), 'w') as f:
@@ -464,6 +543,12 @@ def main():
     if args.only is None:
         status['WrapperGen.v'] = gen_wrapper_file(args.repo, args.out)
         ok = ok and 'error' not in status['WrapperGen.v']
+        status['MatcherGen.v'] = gen_matcher_file(args.repo, args.out)
+        ok = ok and 'error' not in status['MatcherGen.v']
+        status['FilterWrapperGen.v'] = gen_filter_wrapper_file(args.repo, args.out)
+        ok = ok and 'error' not in status['FilterWrapperGen.v']
+        status['ProfilerGen.v'] = gen_profiler_file(args.repo, args.out)
+        ok = ok and 'error' not in status['ProfilerGen.v']
     try:
         text, info = gen_index(args.repo)
         changed = write_if_changed(os.path.join(args.out, 'IndexGen.v'), text)
